@@ -41,6 +41,9 @@ class Cmd(object):
 
     def cb(self, line):
         self.lines.append(line)
+        # a callback may return anything; what it returns is nobody's business (0 on the first line, then 1, 2, ...: a falsy
+        # non-None value and truthy ones)
+        return len(self.lines) - 1
 
 
 def _expect(cmd, shape, x, y, d, cd='50'):
